@@ -1294,3 +1294,68 @@ func RReplMask(c *core.Ctx) {
 		c.Anchor("node constructors reached in addToConcatenate")
 	}
 }
+
+// R-LASTLE: "the last entry not beyond x" is search(first entry > x) - 1.
+// stringByteMapper.byteIndex looks up the last recorded rune index that is <=
+// its argument.  With a binary search that is the first index whose entry is
+// STRICTLY greater, minus one; a search for the first entry >= x (sort.SearchInts,
+// a `>=` predicate) lands one entry early whenever x itself is recorded — the
+// position right after a multi-byte rune.
+func RLastLE(c *core.Ctx) {
+	c.Rule("R-LASTLE", "in stringByteMapper.byteIndex the binary search whose result is decremented by one uses a strict predicate (entry > x): it is not sort.SearchInts / slices.BinarySearch (first entry >= x) and its predicate closure does not compare with >=", 1)
+	p := c.P
+	pk := p.Pkg("")
+	info := pk.TypesInfo
+	fd, _ := p.DeclOf(p.LookupFunc("", "stringByteMapper.byteIndex"))
+	if fd == nil {
+		c.Anchor("regexp2.stringByteMapper.byteIndex")
+		return
+	}
+	c.Visit("regexp2.(*stringByteMapper).byteIndex")
+	n := 0
+	ast.Inspect(fd.Body, func(x ast.Node) bool {
+		be, ok := x.(*ast.BinaryExpr)
+		if !ok || be.Op != token.SUB {
+			return true
+		}
+		if k, ok := core.ConstInt(info, be.Y); !ok || k != 1 {
+			return true
+		}
+		call, ok := ast.Unparen(be.X).(*ast.CallExpr)
+		if !ok {
+			return true
+		}
+		cal := core.Callee(info, call)
+		if cal == nil || cal.Pkg() == nil || (cal.Pkg().Path() != "sort" && cal.Pkg().Path() != "slices") {
+			return true
+		}
+		n++
+		key := fmt.Sprintf("byteIndex / search #%d minus one uses a strict predicate", n)
+		if cal.Name() != "Search" && cal.Name() != "Find" {
+			c.Bad(key, call.Pos(), "%s.%s finds the first entry >= x; minus one that is the last entry < x, one entry early when x itself is in the table (the rune right after a multi-byte rune gets the byte offset of the rune before the shift)", cal.Pkg().Name(), cal.Name())
+			return true
+		}
+		strict := false
+		var op token.Token
+		for _, a := range call.Args {
+			if fl, ok := ast.Unparen(a).(*ast.FuncLit); ok {
+				ast.Inspect(fl.Body, func(y ast.Node) bool {
+					if b2, ok := y.(*ast.BinaryExpr); ok {
+						switch b2.Op {
+						case token.GTR, token.LSS:
+							strict, op = true, b2.Op
+						case token.GEQ, token.LEQ:
+							op = b2.Op
+						}
+					}
+					return true
+				})
+			}
+		}
+		c.Check(strict, key, call.Pos(), "the predicate compares with %s: the search then finds the first entry >= x and the decrement lands one entry early when x itself is recorded", op)
+		return true
+	})
+	if n == 0 {
+		c.Anchor("a binary search decremented by one in byteIndex")
+	}
+}
